@@ -128,6 +128,52 @@ def periodic_after_update(ctx, dim, what):
     _periodic(ctx, srf, dim, per)
 
 
+@contract(P, "Fourier/short-period-and-mode_no-lists-are-filled-with-their-last-value",
+          params=[{"dim": 3, "given": 2}, {"dim": 3, "given": 1}, {"dim": 2, "given": 1}],
+          functions=FN + ["field/generator.py:Fourier._fill_to_dim"], timeout=30, nsamples=2, search=20)
+def periodic_filled(ctx, dim, given):
+    """`period` / `mode_no` shorter than the dimension: 'fill an array with last element up to len(dim)' --
+    the remaining axes are periodic with the LAST given period"""
+    mod = sym_model(ctx, dim, nugget=False)
+    s = ctx.integer("seed", lo=1, hi=1000)
+    per = ctx.reals("per", given, pos=True)
+    for p in per:
+        ctx.require(ctx.gt(p, 0))
+    if given > 1:
+        ctx.require(ctx.ne(per[0], per[-1]))
+    arg = list(per) if given > 1 else per[0]
+    srf = _q(gs.SRF, mod, generator="Fourier", period=arg, mode_no=[4, 2][:given] if given > 1 else 2, seed=s)
+    full = list(per) + [per[-1]] * (dim - given)
+    g = srf.generator
+    ctx.ensure("period-filled-with-last-value", ctx.And(ctx.shape_eq(g.period, (dim,)), ctx.eq(g.period, np.array(full, dtype=object)
+                                                                                                 if ctx.mode == "sym" else np.array(full, dtype=float))))
+    want_modes = ([4, 2][:given] if given > 1 else [2]) + [([4, 2][:given] if given > 1 else [2])[-1]] * (dim - given)
+    ctx.ensure("mode_no-filled-with-last-value", list(g.mode_no) == want_modes)
+    _periodic(ctx, srf, dim, full)
+
+
+@contract(P, "Fourier.update[several-settings-at-once]/periodic-for-new-settings",
+          params=[{"dim": d, "what": w} for d in (1, 2) for w in ("period+same-mode_no", "model+same-mode_no", "period+new-mode_no")
+                  if not (d == 1 and w == "model+same-mode_no")],
+          functions=FN, timeout=30, nsamples=2, search=20)
+def periodic_after_joint_update(ctx, dim, what):
+    """Generator.update takes model, seed, period and mode_no together ('period/mode_no: ... keep the present
+    one if None'): passing the present mode numbers again is a legal way to say 'keep them'"""
+    mod, s, per, srf = _mk(ctx, dim, [2] * dim)
+    srf([[0.5, 1.5]] * dim, store=False)
+    g = srf.generator
+    if what.startswith("period"):
+        per = ctx.reals("per2_", dim, pos=True)
+        for p in per:
+            ctx.require(ctx.gt(p, 0))
+        g.update(period=per, mode_no=[2] * dim if what.endswith("same-mode_no") else [4] + [2] * (dim - 1))
+    else:
+        mod2, v = _changed_model(ctx, mod, "anis", dim, "beyond")
+        g.update(model=mod2, mode_no=[2] * dim)
+        srf._model = mod2        # the SRF's model for the position transformation (generator tested directly)
+    _periodic(ctx, srf, dim, per)
+
+
 @contract(P, "Fourier.update/odd-mode-count-rejected", params={"dim": [1, 2]},
           functions=["field/generator.py:Fourier.update"])
 def odd_rejected(ctx, dim):
